@@ -10,6 +10,9 @@
 //	isoyears   expanded-year (+-YYYYYY) and four-digit texts over a leap-class year lattice x month/day lattice,
 //	           direct parse (nonexistent days -> NaN) and toISOString -> parse round trip
 //	reentrant  setters called with logging / mutating / throwing valueOf arguments: step order of 15.9.5.27-41
+//	invalidroutes  every route into the invalid state (TimeClip overflow by each setter, setTime, NaN arguments,
+//	           constructor overflow, unparsable text, Date.prototype) followed by 1-2 setters, all getters after each step
+//	bigfields  field magnitudes 1e7..1e22, 2^31/2^32/2^53/2^63/2^64 neighbours, ... at every field position
 //	history    E2 BFS over the time value under the 8 UTC setters + setTime
 package c12
 
@@ -45,6 +48,8 @@ func init() {
 			"isoyears: year lattice (all four Gregorian leap classes, negative / around 0 / 10000..10400 / range ends) x month-day lattice x {date-only, full} texts, expanded and four-digit spelling; valid dates also go through the instants observations. " +
 			"reentrant: setter x arity 1..max+1 x {5,40,NaN}^arity x (no probe | position x 6 actions) x 3 receivers, every argument an object with a logging valueOf; " +
 			"non-trivial = a probe acts or the receiver is invalid. " +
+			"invalidroutes: route into the invalid state x follow-up setters (2- and 3-step histories), each step compared on return value, getTime, valueOf, 8 accessors, toISOString; non-trivial = the history ends in a valid date. " +
+			"bigfields: one field (optionally a second, compensating one) replaced by a large finite value, all positions of Date.UTC / new Date / setUTC*; non-trivial = expected result is a number. " +
 			"history: BFS over time values from 5 initial values under all setter operations, dedup on the model time value; every transition is " +
 			"executed on a real Date object built by replaying the shortest path and compared on return value, getTime, valueOf and the 8 accessors; " +
 			"non-trivial = pre-state or post-state is a valid date.",
@@ -56,6 +61,8 @@ func init() {
 			{Name: "isoforms", Run: runISOForms},
 			{Name: "isoyears", Run: runISOYears},
 			{Name: "reentrant", Run: runReentrant},
+			{Name: "invalidroutes", Run: runInvalidRoutes},
+			{Name: "bigfields", Run: runBigFields},
 			{Name: "history", Run: runHistory},
 		},
 		Assumptions: []string{
@@ -77,6 +84,7 @@ func init() {
 		"c12-year-test-no-toint":  'Y',
 		"c12-setfullyear-nan":     'S',
 		"c12-setter-shortcircuit": 'O',
+		"c12-go-int-overflow":     'G',
 		"c12-settime-stays-nan":   'T',
 		"c12-iso-year-go-layout":  'I',
 		"c12-iso-invalid-nothrow": 'R',
@@ -265,6 +273,21 @@ const prelude = `
     case 7: switch (k) { case 0: return d.setTime(); default: return d.setTime(a); }
     }
   }
+  // sequences: receiver built by ctor (0: new Date(c0), 1: new Date(c0, c1), 2: Date.prototype), then n <= 3
+  // setter calls; after construction and after every call: return value, getTime, valueOf | fields | toISOString
+  function snap(d, r) {
+    var s;
+    try { s = d.toISOString(); s = typeof s === "string" ? "string:" + s : v(s); } catch (e) { s = "throw:" + (e && e.name); }
+    return v(r) + "," + v(d.getTime()) + "," + v(d.valueOf()) + "|" + fields(d) + "|" + s;
+  }
+  global.__seq = function(ctor, c0, c1, n, s1, k1, a1, b1, c1_, d1, s2, k2, a2, b2, c2, d2, s3, k3, a3, b3, c3, d3) {
+    var d = ctor === 0 ? new Date(c0) : ctor === 1 ? new Date(c0, c1) : Date.prototype;
+    var out = snap(d, undefined);
+    if (n > 0) out += " / " + snap(d, ap(d, s1, k1, a1, b1, c1_, d1));
+    if (n > 1) out += " / " + snap(d, ap(d, s2, k2, a2, b2, c2, d2));
+    if (n > 2) out += " / " + snap(d, ap(d, s3, k3, a3, b3, c3, d3));
+    return out;
+  };
   // history: apply np prefix operations, then one operation; report pre-state | return value, getTime, valueOf | fields
   global.__hist = function(init, np, s1, k1, a1, b1, c1, d1, s2, k2, a2, b2, c2, d2, s3, k3, a3, b3, c3, d3) {
     var d = new Date(init), r, pre, p, q;
@@ -285,8 +308,8 @@ const prelude = `
 // state, so reuse cannot matter; the runtime is nevertheless replaced after
 // any error or Go panic.
 type machine struct {
-	vm                                        *otto.Otto
-	inst, parse, rt, reent, fields, hist, und otto.Value
+	vm                                             *otto.Otto
+	inst, parse, rt, reent, seq, fields, hist, und otto.Value
 }
 
 func newMachine() (*machine, error) {
@@ -296,7 +319,7 @@ func newMachine() (*machine, error) {
 	}
 	m := &machine{vm: vm, und: otto.UndefinedValue()}
 	var err error
-	for name, dst := range map[string]*otto.Value{"__inst": &m.inst, "__parse": &m.parse, "__rt": &m.rt, "__reent": &m.reent, "__fields": &m.fields, "__hist": &m.hist} {
+	for name, dst := range map[string]*otto.Value{"__inst": &m.inst, "__parse": &m.parse, "__rt": &m.rt, "__reent": &m.reent, "__seq": &m.seq, "__fields": &m.fields, "__hist": &m.hist} {
 		if *dst, err = vm.Get(name); err != nil || !dst.IsFunction() {
 			return nil, fmt.Errorf("prelude: %s missing", name)
 		}
@@ -395,9 +418,9 @@ func arg(src string) jsArg {
 		}
 	case v.IsString():
 		s, _ := v.ToString()
-		f, err := strconv.ParseFloat(s, 64) // only plain decimal strings are used
+		f, err := strconv.ParseFloat(s, 64) // only plain decimal strings, or text that is no StringNumericLiteral at all
 		if err != nil {
-			panic("c12: non-numeric string argument " + src)
+			f = math.NaN()
 		}
 		a.Num = f
 	default:
